@@ -20,7 +20,9 @@ pub enum Supplier {
     Solar { q: Vec<u32> },
     Red { two: bool, q: Vec<u32> },
     Boiler { fuel: Car, input: Vec<u32>, eta_pct: u32 },
-    Biomass { dens: bool, input: Vec<u32>, eta_pct: u32, salida: bool },
+    /// `other`: the same system also burns biomass for heating, with its own SALIDA line (another service's
+    /// output under the DHW system's id)
+    Biomass { dens: bool, input: Vec<u32>, eta_pct: u32, salida: bool, #[serde(default)] other: Option<Vec<u32>> },
 }
 
 /// a cogeneration unit: EL_COGEN production per step (zero at some steps) and one to three fuel inputs,
@@ -80,7 +82,7 @@ fn supplier(n: usize) -> BoxedStrategy<Supplier> {
         2 => stepvals(n, 100_000).prop_map(|q| Supplier::Solar { q }),
         2 => (any::<bool>(), stepvals(n, 100_000)).prop_map(|(two, q)| Supplier::Red { two, q }),
         2 => (select(vec![Car::GASNATURAL, Car::GASOLEO, Car::GLP, Car::CARBON, Car::BIOCARBURANTE]), stepvals(n, 100_000), 60u32..=105).prop_map(|(fuel, input, eta_pct)| Supplier::Boiler { fuel, input, eta_pct }),
-        3 => (any::<bool>(), stepvals(n, 100_000), 60u32..=100, any::<bool>()).prop_map(|(dens, input, eta_pct, salida)| Supplier::Biomass { dens, input, eta_pct, salida }),
+        3 => (any::<bool>(), stepvals(n, 100_000), 60u32..=100, any::<bool>(), proptest::option::weighted(0.35, stepvals(n, 100_000))).prop_map(|(dens, input, eta_pct, salida, other)| Supplier::Biomass { dens, input, eta_pct, salida, other }),
     ]
     .boxed()
 }
@@ -175,10 +177,16 @@ impl DhwCase {
                 Supplier::Solar { q } => lines.push(mk(id, Kind::Used { srv: Srv::ACS, car: Car::TERMOSOLAR }, cv(q), "")),
                 Supplier::Red { two, q } => lines.push(mk(id, Kind::Used { srv: Srv::ACS, car: if *two { Car::RED2 } else { Car::RED1 } }, cv(q), "")),
                 Supplier::Boiler { fuel, input, .. } => lines.push(mk(id, Kind::Used { srv: Srv::ACS, car: *fuel }, cv(input), "")),
-                Supplier::Biomass { dens, input, salida, .. } => {
-                    lines.push(mk(id, Kind::Used { srv: Srv::ACS, car: if *dens { Car::BIOMASADENSIFICADA } else { Car::BIOMASA } }, cv(input), ""));
+                Supplier::Biomass { dens, input, salida, other, eta_pct } => {
+                    let car = if *dens { Car::BIOMASADENSIFICADA } else { Car::BIOMASA };
+                    lines.push(mk(id, Kind::Used { srv: Srv::ACS, car }, cv(input), ""));
                     if *salida {
                         lines.push(mk(id, Kind::Out { srv: Srv::ACS }, heat[i].iter().map(|c| cents_f32(*c)).collect(), ""));
+                    }
+                    // (not on the system that carries the auxiliaries: they would be shared with the heating service)
+                    if let (Some(o), true) = (other, i > 0 || self.aux.is_none()) {
+                        lines.push(mk(id, Kind::Used { srv: Srv::CAL, car }, cv(o), ""));
+                        lines.push(mk(id, Kind::Out { srv: Srv::CAL }, o.iter().map(|x| cents_f32(*x as i64 * *eta_pct as i64 / 100)).collect(), ""));
                     }
                 }
             }
